@@ -27,6 +27,7 @@ import numpy as np
 from physt._construction import (
     calculate_1d_bins,
     calculate_nd_bins,
+    extract_1d_array,
     extract_nd_array,
     extract_weights,
 )
@@ -456,7 +457,10 @@ def polar(
         **kwargs,
     )
     return PolarHistogram.from_calculate_frequencies(
-        data, binnings=bin_schemas, weights=weights, **kwargs
+        data,
+        binnings=bin_schemas,
+        weights=extract_weights(weights, array_mask=array_mask),
+        **kwargs,
     )
 
 
@@ -483,7 +487,7 @@ def azimuthal(
             [np.asarray(xdata)[:, np.newaxis], np.asarray(ydata)[:, np.newaxis]], axis=1
         )
     data, array_mask = extract_transformed_data(
-        data, transformed=False, klass=AzimuthalHistogram, dropna=dropna
+        data, transformed=transformed, klass=AzimuthalHistogram, dropna=dropna
     )
     if isinstance(bins, int):
         bins = np.linspace(*range, bins + 1)
@@ -491,7 +495,9 @@ def azimuthal(
         data, bins, range=range, check_nan=not dropna, **kwargs
     )
     return AzimuthalHistogram.from_calculate_frequencies(
-        data=data, binning=bin_schema, weights=weights
+        data=data,
+        binning=bin_schema,
+        weights=extract_weights(weights, array_mask=array_mask),
     )
 
 
@@ -596,7 +602,9 @@ def spherical(
     #     raise
 
     return SphericalHistogram.from_calculate_frequencies(
-        transformed_array, binnings=bin_schemas, weights=weights
+        transformed_array,
+        binnings=bin_schemas,
+        weights=extract_weights(weights, array_mask=array_mask),
     )
 
 
@@ -782,6 +790,9 @@ def extract_transformed_data(
     """Extract and potentially transform data for binning."""
     if data is None:
         return None, None
+    if transformed and np.ndim(data) == 1:
+        # Already transformed coordinates of a 1D histogram
+        return extract_1d_array(data, dropna=dropna)
     _, array, array_mask = extract_nd_array(data, dim=None, dropna=dropna)
     if not transformed:
         array = klass.transform(array)  # type: ignore
